@@ -80,7 +80,7 @@ func Compare(stmts []string, opt Options) (o Outcome) {
 	}()
 	judging := true
 	for i, src := range stmts {
-		pr := impl.Parse(src, impl.ParseFuel(len(src)))
+		pr := impl.ParseCached(src)
 		if pr.Panic != "" || pr.FuelOut != "" {
 			// the front end's totality is C06's subject; here the statement is simply not executable
 			o.Skipped = "front end failed on statement " + strconv.Itoa(i)
@@ -91,6 +91,12 @@ func Compare(stmts []string, opt Options) (o Outcome) {
 			return o
 		}
 		if pr.Err != "" {
+			if !opt.AllowParseErrors {
+				// the sessions of every check but C08 and C05 are generated to be valid programs
+				o.Sig = "harness:generated-program-does-not-parse"
+				o.Detail = fmt.Sprintf("statement %d `%s` is rejected by the parser: %s", i, oneLine(src), pr.Err)
+				return o
+			}
 			o.ParseErrors++
 			o.ImplObs = append(o.ImplObs, "PARSE-ERROR")
 			o.RefObs = append(o.RefObs, "PARSE-ERROR")
